@@ -31,6 +31,16 @@ def extract_stmt(src, start_re):
     return src[start:e + 1]
 
 
+def extract_struct(src):
+    """`pub struct DeterministicState;` or a braced / tuple form of it"""
+    m = re.search(r"^pub struct DeterministicState\b[^\n;{]*([;{])", src, re.M)
+    if not m:
+        raise LostAnchor("item not found: ^pub struct DeterministicState")
+    if m.group(1) == ";":
+        return extract_stmt(src, r"^pub struct DeterministicState\b")
+    return extract_item(src, r"^pub struct DeterministicState\b")
+
+
 FORBIDDEN = [
     (r"\bRandomState\b", "std's randomly seeded hasher state"),
     (r"std::collections::(hash_map::)?Hash(Map|Set)\b(?!.*DeterministicState)", "std hashed collection without the deterministic hasher"),
@@ -82,7 +92,7 @@ def frame_scan():
 def family(tier, seed):
     src = open(os.path.join(core.REPO, "impl/src/utils.rs")).read()
     items = [
-        extract_stmt(src, r"^pub struct DeterministicState;"),
+        extract_struct(src),
         extract_item(src, r"^impl std::hash::BuildHasher for DeterministicState \{"),
         extract_stmt(src, r"^pub type HashMap<"),
         extract_stmt(src, r"^pub type HashSet<"),
@@ -171,14 +181,19 @@ mod proofs {
 
 
 def run(tier, seed):
+    hits, files = frame_scan()
+    lost = None
     try:
         fam = family(tier, seed)
     except LostAnchor as e:
-        print("UNDECIDED property=C19 lost extraction anchor: %s" % e)
-        return 2
-    hits, files = frame_scan()
-    fam.extra_cov["frame_scan"] = {"files_scanned": files, "patterns": len(FORBIDDEN) + 1, "hits": [list(h) for h in hits]}
-    rc = core.decide(fam, tier, seed)
+        lost = str(e)
+    if lost is None:
+        fam.extra_cov["frame_scan"] = {"files_scanned": files, "patterns": len(FORBIDDEN) + 1, "hits": [list(h) for h in hits]}
+        rc = core.decide(fam, tier, seed)
+    else:
+        # the hasher items changed shape: the contract cannot be generated (undecided on its own) -- the frame scan still decides
+        print("UNDECIDED property=C19 lost extraction anchor: %s" % lost)
+        rc = 2
     frame_viol = 0
     for i, (rel, n, what, line) in enumerate(hits):
         okey = "frame/%s:%s" % (rel, what.split()[0])
@@ -196,6 +211,8 @@ def run(tier, seed):
         # patch the evidence violation count
         import json
         p = os.path.join(core.VERIF, "evidence", "C19.json")
+        if not os.path.exists(p):
+            return 1
         ev = json.load(open(p))
         ev["violations"] = (ev.get("violations") or 0) + frame_viol
         json.dump(ev, open(p, "w"), indent=1)
